@@ -39,10 +39,14 @@ def handlePeerMsg {M : Type} (dup : M → M → Bool) (p : Pair M) (m : M) : Pai
 def handleRequest {M : Type} (p : Pair M) (k : Nat) : Pair M × Option (List M) :=
   if p.buf.length = k then (⟨[], none⟩, some p.buf) else (⟨p.buf, some k⟩, none)
 
-/-- `dkg.PublicKey` message: index and (decoded) key; `none` = missing / undecodable key -/
+/-- `dkg.PublicKey` message: index and (decoded) key; `none` = missing / undecodable key.
+`sender` is the position in the group id list of the transport-authenticated sender that `Loop`
+stamps on the message (`stampSender`, fix e9f475e; group ids are pairwise distinct, a sender
+outside the group is any number `≥ n`). -/
 structure PkMsg (P : Type) where
   index : Nat
   key : Option P
+  sender : Nat
   deriving DecidableEq, Repr
 
 def dupPk {P : Type} (a b : PkMsg P) : Bool := a.index = b.index
@@ -85,7 +89,8 @@ def runResps (g : P) : Gen S P → List (DkgResp S P) → Gen S P × Bool
 def genGroup (d : Gen S P) : Out (KeyShare S P) := distKeyShare d
 
 /-- `exchangePub` + `genDistKeyGenerator`: own key first, then the batch; every index below `n`,
-no index twice, every key present; then `NewDistKeyGenerator(sec, pubPoints, n/2+1)` whose
+every key announced by the member whose index it claims (fix e9f475e), no index twice, no key
+twice (fix babf9f5), every key present; then `NewDistKeyGenerator(sec, pubPoints, n/2+1)` whose
 polynomial is `f` -/
 def buildGen (g : P) (n : Nat) (long : S) (f : List S) (own : PkMsg P) (batch : List (PkMsg P)) : Option (Gen S P) :=
   let rec place : List (PkMsg P) → List (Option P) → Option (List (Option P))
@@ -95,7 +100,9 @@ def buildGen (g : P) (n : Nat) (long : S) (f : List S) (own : PkMsg P) (batch : 
       | none => none
       | some k =>
         if m.index ≥ n then none
+        else if m.sender ≠ m.index then none
         else if ((acc[m.index]?).join).isSome then none
+        else if acc.contains (some k) then none
         else place ms (acc.set m.index (some k))
   match place (own :: batch) (List.replicate n none) with
   | none => none
@@ -157,7 +164,7 @@ def Member.advance (g : P) (fuel : Nat) (m : Member S P) : Member S P :=
       match m.pkBox with
       | none => m
       | some batch =>
-        match buildGen g m.n m.long m.f ⟨m.index, some (m.long • g)⟩ batch with
+        match buildGen g m.n m.long m.f ⟨m.index, some (m.long • g), m.index⟩ batch with
         | none => { m with pkBox := none, stage := .failed "gen" }
         | some d =>
           match deals g d m.ephs with
@@ -195,7 +202,7 @@ def Member.start (g : P) (m : Member S P) : Member S P :=
     let (dl, b1) := handleRequest m.dlP (m.n - 1)
     let (rs, b2) := handleRequest m.rsP ((m.n - 1) * (m.n - 1))
     Member.advance g 4 { m with pkP := pk, dlP := dl, rsP := rs, pkBox := b0, dlBox := b1, rsBox := b2,
-                                stage := .waitPk, sent := m.sent ++ [Sent.pk ⟨m.index, some (m.long • g)⟩] }
+                                stage := .waitPk, sent := m.sent ++ [Sent.pk ⟨m.index, some (m.long • g), m.index⟩] }
   | _ => m
 
 def orElse {α : Type} (a b : Option α) : Option α := match a with | some x => some x | none => b
